@@ -81,6 +81,24 @@ let parse_op (toks : string list) : M.op =
       let a = tz r in let b = tz r in let k = tz r in let l = tz r in let e = tz r in M.OGrant (a, b, k, l, e)
   | "REVOKE" -> let a = tz r in let b = tz r in let k = tz r in M.ORevoke (a, b, k)
   | "SEND" -> let a = tz r in let b = tz r in let k = tz r in M.OSend (a, b, k)
+  | "PROP" -> let sg = tz r in let tk = ticket r in let li = tz r in let keys = tlist r tz in M.OPropose (sg, tk, keys, li)
+  | "VOTE" -> let sg = tz r in let tk = ticket r in let vi = tz r in let pid = tz r in let v = tz r in M.OVote (sg, tk, vi, pid, v)
+  | "SCRE" -> let c = tz r in let o = tz r in let ls = tlist r (fun r -> let t = tz r in let a = tz r in (t, a)) in M.OSubCreate (c, o, ls)
+  | "STOP" -> let c = tz r in let o = tz r in let ls = tlist r (fun r -> let t = tz r in let a = tz r in (t, a)) in M.OSubTopUp (c, o, ls)
+  | "SWDU" -> M.OSubWithdraw (tz r)
+  | "SWAG" ->
+      let sg = tz r in let tk = ticket r in let ic = tz r in let tk2 = ticket r in let uid = tz r in let amt = tz r in
+      let sm = tz r in let so = tz r in let ov = tz r in let mu = tz r in let ky = kyc r in let ot = tz r in
+      let md = tz r in let sd = tz r in
+      let all = tlist r (fun r -> let o = tz r in let m = tz r in (o, m)) in
+      M.OSubWager (sg, tk, ic, tk2, uid, amt, sm, so, ov, mu, all, ky, ot, md, sd)
+  | "SDEP" ->
+      let sg = tz r in let tk = ticket r in let mkt = tz r in let amt = tz r in let ky = kyc r in
+      let dep = tz r in M.OSubHouseDeposit (sg, tk, mkt, amt, ky, dep)
+  | "SWDR" ->
+      let sg = tz r in let tk = ticket r in let mkt = tz r in let pidx = tz r in let mode = tz r in
+      let amt = tz r in let ky = kyc r in let dep = tz r in
+      M.OSubHouseWithdraw (sg, tk, mkt, pidx, mode, amt, ky, dep)
   | x -> raise (Parse ("unknown op " ^ x))
 
 (* GEN nacc balance supply t0 P betbatch betmin betfee obmax obbatch obthr hmindep hfee hmaxw
@@ -100,8 +118,9 @@ let parse_gen (toks : string list) : M.chain * int =
   let bpy = tz r in let excl = tz r in
   let phs = tlist r (fun r -> let i = tz r in let c = tz r in { M.ph_infl = i; M.ph_coef = c }) in
   let mp = { M.bpy = bpy; M.excl = excl; M.phases = phs } in
+  let (sw, sd) = (match !r with "S" :: _ -> ignore (take r); let a = tb r in let b = tb r in (a, b) | _ -> (true, true)) in
   let bank = List.init nacc (fun i -> (z2c (Z.of_int i), bal)) in
-  (M.init bank supply prm vault mp t0, nacc)
+  (M.init bank supply prm vault mp t0 sw sd, nacc)
 
 (* ---- state dump (must print exactly what harness/dump.go prints) ---------------------------- *)
 let cat l = String.concat " " (List.filter (fun x -> x <> "") l)
@@ -115,6 +134,20 @@ let dump (s : M.chain) (nacc : int) : string list =
   done;
   List.iter (fun (nm, id) -> add (cat ["BAL"; nm; zs (M.bget s.M.c_bank id)]))
     [("pool", M.pOOL); ("betfee", M.bETFEE); ("housefee", M.hOUSEFEE)];
+  List.iter (fun (x : M.subacc) ->
+      let a = M.sub_addr x in
+      add (cat ["BAL"; "sub" ^ zs x.M.sa_id; zs (M.bget s.M.c_bank a)]);
+      add (cat ["SUB"; zs x.M.sa_id; zs x.M.sa_owner; zs x.M.sa_dep; zs x.M.sa_spent; zs x.M.sa_wd; zs x.M.sa_lost]);
+      List.iter (fun (t, am) -> add (cat ["LOCK"; zs x.M.sa_id; zs t; zs am])) x.M.sa_locks)
+    s.M.c_subs;
+  add (cat ["SUBNEXT"; zs s.M.c_subnext]);
+  add (cat ["VAULT"; zl s.M.c_vault]);
+  add (cat ["PCNT"; zs s.M.c_propcnt]);
+  List.iter (fun (p : M.proposal) ->
+      let votes = List.map (fun (k, v) -> zs k ^ ":" ^ zs v) p.M.pp_votes in
+      add (cat (["PROP"; zs p.M.pp_id; zs p.M.pp_creator; zs p.M.pp_leader; zs p.M.pp_start; zs p.M.pp_status;
+                 zs p.M.pp_result; zs p.M.pp_finish; "|"; zl p.M.pp_keys; "|"] @ votes)))
+    s.M.c_props;
   add (cat ["SUP"; zs s.M.c_supply]);
   let m = s.M.c_minter in
   add (cat ["MINT"; zs m.M.m_infl; zs m.M.m_step; zs m.M.m_prov; zs m.M.m_trunc]);
